@@ -1,6 +1,6 @@
-(* Proofs about Model/Cache.v (property C12): structural invariants for every operation list,
-   isolation by signer index, bounds when round caches are not shared between signers, the store
-   window, and stability of a victim's entries. *)
+(* Proofs about Model/Cache.v (property C12): structural invariants for every operation list (the
+   ids recorded for a signer index are exactly the round caches it is in), the per-signer cap,
+   isolation by signer index, the store window, and stability of a victim's entries. *)
 From Coq Require Import ZArith List Bool Lia.
 From DV Require Import Model.Cache.
 Import ListNotations.
@@ -170,6 +170,8 @@ End AL.
 
 
 Lemma zeqb_eq : forall a b, Z.eqb a b = true <-> a = b. Proof. exact Z.eqb_eq. Qed.
+Lemma is_nil_spec {A} (l : list A) : is_nil l = true <-> l = [].
+Proof. destruct l; simpl; split; congruence. Qed.
 
 Lemma sigs_aset k v R X id' :
   sigs_of (mkPC (aset cid_eqb k v R) X) id' = if cid_eqb id' k then Some v else aget cid_eqb id' R.
@@ -194,67 +196,6 @@ Proof.
 Qed.
 Lemma rcvd_rounds_irrel R R' X j : rcvd_of (mkPC R X) j = rcvd_of (mkPC R' X) j.
 Proof. reflexivity. Qed.
-
-(* the four ways Append can go, at the level of the two views *)
-Inductive app_case (cap : Z) (c : pcache) (idx : Z) (id : cid) (c' : pcache) (e : cerr) : Prop :=
-| AC_noop : c' = c -> app_case cap c idx id c' e
-| AC_join sigs :
-    sigs_of c id = Some sigs -> zmem idx sigs = false -> e = COk ->
-    rounds c' = aset cid_eqb id (sigs ++ [idx]) (rounds c) ->
-    rcvd c' = aset Z.eqb idx (rcvd_of c idx ++ [id]) (rcvd c) ->
-    (forall id', sigs_of c' id' = if cid_eqb id' id then Some (sigs ++ [idx]) else sigs_of c id') ->
-    (forall j, rcvd_of c' j = if j =? idx then rcvd_of c idx ++ [id] else rcvd_of c j) ->
-    app_case cap c idx id c' e
-| AC_create :
-    sigs_of c id = None -> Z.of_nat (length (rcvd_of c idx)) < cap -> e = COk ->
-    rounds c' = aset cid_eqb id [idx] (rounds c) ->
-    rcvd c' = aset Z.eqb idx (rcvd_of c idx ++ [id]) (rcvd c) ->
-    (forall id', sigs_of c' id' = if cid_eqb id' id then Some [idx] else sigs_of c id') ->
-    (forall j, rcvd_of c' j = if j =? idx then rcvd_of c idx ++ [id] else rcvd_of c j) ->
-    app_case cap c idx id c' e
-| AC_evict h t hs :
-    sigs_of c id = None -> cap <= Z.of_nat (length (rcvd_of c idx)) -> e = COk ->
-    rcvd_of c idx = h :: t -> sigs_of c h = Some hs -> h <> id ->
-    rounds c' = aset cid_eqb id [idx]
-                  (if is_nil (zremove idx hs) then adel cid_eqb h (rounds c)
-                   else aset cid_eqb h (zremove idx hs) (rounds c)) ->
-    rcvd c' = aset Z.eqb idx ((t ++ [id]) ++ [id]) (rcvd c) ->
-    (forall id', sigs_of c' id' =
-       if cid_eqb id' id then Some [idx]
-       else if cid_eqb id' h then (if is_nil (zremove idx hs) then None else Some (zremove idx hs))
-       else sigs_of c id') ->
-    (forall j, rcvd_of c' j = if j =? idx then (t ++ [id]) ++ [id] else rcvd_of c j) ->
-    app_case cap c idx id c' e.
-
-Lemma pc_append_cases cap c idx id c' e :
-  pc_append cap c idx id = (c', e) -> app_case cap c idx id c' e.
-Proof.
-  unfold pc_append. destruct (sigs_of c id) as [sigs|] eqn:Hs.
-  - destruct (zmem idx sigs) eqn:Hm; intro H; inversion H; subst.
-    + apply AC_noop; auto.
-    + apply (AC_join _ _ _ _ _ _ sigs); auto.
-      * intro id'. rewrite sigs_aset. reflexivity.
-      * intro j. rewrite rcvd_aset. destruct c; reflexivity.
-  - destruct (cap <=? Z.of_nat (length (rcvd_of c idx))) eqn:Hc.
-    + apply Z.leb_le in Hc. destruct (rcvd_of c idx) as [|h t] eqn:HL.
-      * intro H; inversion H; subst. apply AC_noop; auto.
-      * destruct (sigs_of c h) as [hs|] eqn:Hh; intro H; inversion H; subst.
-        2:{ apply AC_noop; auto. }
-        assert (Hne : h <> id) by (intro; subst; congruence).
-        apply (AC_evict _ _ _ _ _ _ h t hs); auto.
-        -- rewrite HL; auto.
-        -- intro id'. rewrite sigs_aset. destruct (cid_eqb id' id) eqn:E1; auto.
-           destruct (is_nil (zremove idx hs)).
-           ++ pose proof (sigs_adel h (rounds c) [] id') as Q; unfold sigs_of in Q; simpl in Q; rewrite Q. reflexivity.
-           ++ pose proof (sigs_aset h (zremove idx hs) (rounds c) [] id') as Q; unfold sigs_of in Q; simpl in Q; rewrite Q. reflexivity.
-        -- intro j. rewrite rcvd_aset. destruct c; reflexivity.
-    + apply Z.leb_gt in Hc. intro H; inversion H; subst.
-      apply AC_create; auto.
-      * intro id'. rewrite sigs_aset. reflexivity.
-      * intro j. rewrite rcvd_aset. destruct c; reflexivity.
-Qed.
-
-
 Lemma aget_filter_key (p : cid -> bool) (l : list (cid * list Z)) k :
   aget cid_eqb k (filter (fun e => p (fst e)) l) = if p k then aget cid_eqb k l else None.
 Proof.
@@ -334,78 +275,175 @@ Proof.
 Qed.
 
 (* ---- structural invariants that hold for every operation list ---- *)
+
+(* ---- what Append does, at the level of membership (who has a partial where) ---- *)
+Definition evh_is (evh : option cid) (id' : cid) : bool :=
+  match evh with Some h => cid_eqb id' h | None => false end.
+
+Record add_spec (cap : Z) (c : pcache) (idx : Z) (id : cid) (c' : pcache) (L1 : list cid) (evh : option cid) : Prop := {
+  as_new : has_entry c idx id = false;
+  as_plain : evh = None -> Z.of_nat (length (rcvd_of c idx)) < cap /\ L1 = rcvd_of c idx;
+  as_evict : forall h, evh = Some h ->
+     cap <= Z.of_nat (length (rcvd_of c idx)) /\ rcvd_of c idx = h :: L1 /\ sigs_of c h <> None;
+  as_has : forall x id', has_entry c' x id' =
+     (has_entry c x id' && negb (evh_is evh id' && (x =? idx))) || (cid_eqb id' id && (x =? idx));
+  as_rcvd : forall j, rcvd_of c' j = if j =? idx then L1 ++ [id] else rcvd_of c j;
+  as_keys : NoDup (map fst (rounds c)) -> NoDup (map fst (rounds c'));
+  as_rkeys : NoDup (map fst (rcvd c)) -> NoDup (map fst (rcvd c'));
+  as_nonempty : (forall i s, sigs_of c i = Some s -> s <> []) -> (forall i s, sigs_of c' i = Some s -> s <> []);
+  as_exists : forall i s, sigs_of c' i = Some s -> i = id \/ exists s0, sigs_of c i = Some s0
+}.
+
+Lemma has_entry_sigs c x id : has_entry c x id = true <-> exists s, sigs_of c id = Some s /\ zmem x s = true.
+Proof.
+  unfold has_entry. destruct (sigs_of c id) as [s|]; split.
+  - intro H; exists s; auto.
+  - intros [s0 [E H]]. inversion E; subst; auto.
+  - discriminate.
+  - intros [s0 [E _]]; discriminate.
+Qed.
+
+Lemma app_not_nil' {A} (l : list A) x : l ++ [x] <> [].
+Proof. destruct l; discriminate. Qed.
+
+Lemma pc_append_spec cap c idx id c' e : pc_append cap c idx id = (c', e) ->
+  c' = c \/ exists L1 evh, add_spec cap c idx id c' L1 evh.
+Proof.
+  unfold pc_append. destruct (has_entry c idx id) eqn:Hn; [intro H; inversion H; auto|].
+  unfold pc_evict. destruct (cap <=? Z.of_nat (length (rcvd_of c idx))) eqn:Hc.
+  - apply Z.leb_le in Hc. destruct (rcvd_of c idx) as [|h t] eqn:HL; [intro H; inversion H; auto|].
+    destruct (sigs_of c h) as [hs|] eqn:Hh; [|intro H; inversion H; auto].
+    intro H; inversion H; subst c' e. clear H. right. exists t, (Some h).
+    set (rs := if is_nil (zremove idx hs) then adel cid_eqb h (rounds c) else aset cid_eqb h (zremove idx hs) (rounds c)).
+    assert (V : forall i, aget cid_eqb i rs =
+              if cid_eqb i h then (if is_nil (zremove idx hs) then None else Some (zremove idx hs)) else sigs_of c i).
+    { intro i. unfold rs. destruct (is_nil (zremove idx hs)).
+      - pose proof (sigs_adel h (rounds c) [] i) as Q. unfold sigs_of in Q; simpl in Q. exact Q.
+      - pose proof (sigs_aset h (zremove idx hs) (rounds c) [] i) as Q. unfold sigs_of in Q; simpl in Q. exact Q. }
+    assert (HV : forall x i, (match aget cid_eqb i rs with Some s => zmem x s | None => false end) =
+                             has_entry c x i && negb (cid_eqb i h && (x =? idx))).
+    { intros x i. rewrite V. unfold has_entry. destruct (cid_eqb i h) eqn:E.
+      - apply cid_eqb_eq in E; subst i. rewrite Hh. simpl.
+        destruct (is_nil (zremove idx hs)) eqn:En.
+        + apply is_nil_spec in En. pose proof (zmem_zremove x idx hs) as Q. rewrite En in Q. simpl in Q.
+          destruct (x =? idx); simpl in *; [rewrite andb_false_r; auto | rewrite andb_true_r; auto].
+        + rewrite zmem_zremove. destruct (x =? idx); simpl; [rewrite andb_false_r; auto | rewrite andb_true_r; auto].
+      - simpl. rewrite andb_true_r. auto. }
+    split; auto.
+    + discriminate.
+    + intros h0 E. inversion E; subst h0. rewrite HL. repeat split; auto. congruence.
+    + intros x i. unfold has_entry at 1. rewrite sigs_aset. destruct (cid_eqb i id) eqn:E.
+      * apply cid_eqb_eq in E; subst i. rewrite zmem_app. simpl. rewrite orb_false_r.
+        specialize (HV x id). destruct (aget cid_eqb id rs); simpl in *; rewrite ?HV; auto.
+        rewrite <- HV. auto.
+      * rewrite orb_false_r. apply HV.
+    + intro j. rewrite rcvd_aset. destruct c; reflexivity.
+    + intro ND. simpl. apply (nodup_aset cid_eqb cid_eqb_eq). unfold rs.
+      destruct (is_nil (zremove idx hs)); [apply (nodup_adel cid_eqb cid_eqb_eq) | apply (nodup_aset cid_eqb cid_eqb_eq)]; auto.
+    + intro ND. simpl. apply (nodup_aset Z.eqb zeqb_eq); auto.
+    + intros NE i s. rewrite sigs_aset. destruct (cid_eqb i id); [intro Q; inversion Q; apply app_not_nil'|].
+      rewrite V. destruct (cid_eqb i h); [|apply NE].
+      destruct (is_nil (zremove idx hs)) eqn:En; [discriminate|]. intro Q; inversion Q; subst.
+      intro Z0. rewrite Z0 in En. discriminate.
+    + intros i s. rewrite sigs_aset. destruct (cid_eqb i id) eqn:E; [apply cid_eqb_eq in E; auto|].
+      rewrite V. destruct (cid_eqb i h) eqn:E2; [apply cid_eqb_eq in E2; subst; right; eauto | intro Q; right; eauto].
+  - apply Z.leb_gt in Hc. intro H; inversion H; subst c' e. clear H. right. exists (rcvd_of c idx), None.
+    split; auto.
+    + intros h E; discriminate.
+    + intros x i. unfold has_entry at 1. rewrite sigs_aset. simpl. rewrite andb_true_r. destruct (cid_eqb i id) eqn:E.
+      * apply cid_eqb_eq in E; subst i. rewrite zmem_app. simpl. rewrite orb_false_r. unfold has_entry.
+        fold (sigs_of c id). destruct (sigs_of c id); simpl; auto.
+      * rewrite orb_false_r. reflexivity.
+    + intro j. rewrite rcvd_aset. destruct c; reflexivity.
+    + intro ND. simpl. apply (nodup_aset cid_eqb cid_eqb_eq); auto.
+    + intro ND. simpl. apply (nodup_aset Z.eqb zeqb_eq); auto.
+    + intros NE i s. rewrite sigs_aset. destruct (cid_eqb i id); [intro Q; inversion Q; apply app_not_nil' | apply NE].
+    + intros i s. rewrite sigs_aset. destruct (cid_eqb i id) eqn:E; [apply cid_eqb_eq in E; auto | intro Q; right; eauto].
+Qed.
+
+(* ---- structural invariants that hold for every operation list ---- *)
 Record wf (c : pcache) : Prop := {
   wf_keys : NoDup (map fst (rounds c));
   wf_rkeys : NoDup (map fst (rcvd c));
   wf_nonempty : forall id sigs, sigs_of c id = Some sigs -> sigs <> [];
-  wf_rcvd : forall id sigs j, sigs_of c id = Some sigs -> zmem j sigs = true -> In id (rcvd_of c j)
+  wf_rcvd : forall id j, has_entry c j id = true -> In id (rcvd_of c j);
+  wf_stale : forall id j, In id (rcvd_of c j) -> has_entry c j id = true;
+  wf_nodup : forall j, NoDup (rcvd_of c j)
 }.
 
 Lemma wf_init : wf pc_init.
-Proof. split; simpl; try constructor; unfold sigs_of; simpl; discriminate. Qed.
+Proof.
+  split; simpl; try constructor; unfold has_entry, sigs_of, rcvd_of; simpl; try discriminate; try tauto.
+Qed.
 
-Lemma is_nil_spec {A} (l : list A) : is_nil l = true <-> l = [].
-Proof. destruct l; simpl; split; congruence. Qed.
+Lemma NoDup_app_single {A} (l : list A) x : NoDup l -> ~ In x l -> NoDup (l ++ [x]).
+Proof.
+  induction l as [|a l IH]; simpl; intros ND N; [constructor; auto; constructor|].
+  inversion ND; subst. constructor.
+  - intro Q. apply in_app_or in Q as [Q|[Q|[]]]; [auto | subst; apply N; auto].
+  - apply IH; auto.
+Qed.
+
+(* the ids the signer keeps are its old ones (minus the evicted head) *)
+Lemma add_kept cap c idx id c' L1 evh : add_spec cap c idx id c' L1 evh -> wf c ->
+  NoDup L1 /\ (forall i, In i L1 -> In i (rcvd_of c idx) /\ evh_is evh i = false) /\
+  (forall i, In i (rcvd_of c idx) -> evh_is evh i = false -> In i L1).
+Proof.
+  intros A W. pose proof (wf_nodup _ W idx) as ND. destruct evh as [h|].
+  - destruct (as_evict _ _ _ _ _ _ _ A h eq_refl) as [_ [E _]]. rewrite E in *. inversion ND; subst.
+    split; auto. split.
+    + intros i Hi. split; [right; auto|]. simpl. apply cid_eqb_neq. intro; subst; contradiction.
+    + intros i [Hi|Hi] N; auto. subst. simpl in N. rewrite cid_eqb_refl in N. discriminate.
+  - destruct (as_plain _ _ _ _ _ _ _ A eq_refl) as [_ E]. subst L1. split; auto.
+Qed.
 
 Lemma wf_append cap c idx id c' e : wf c -> pc_append cap c idx id = (c', e) -> wf c'.
 Proof.
-  intros W H. apply pc_append_cases in H. destruct W as [W1 W2 W3 W4].
-  destruct H as [-> | sigs Hs Hm He Hr Hrc Hv Hrv | Hs Hlt He Hr Hrc Hv Hrv | h t hs Hs Hle He HL Hh Hne Hr Hrc Hv Hrv].
-  - split; auto.
-  - split.
-    + rewrite Hr. apply (nodup_aset cid_eqb cid_eqb_eq); auto.
-    + rewrite Hrc. apply (nodup_aset Z.eqb zeqb_eq); auto.
-    + intros id' s. rewrite Hv. destruct (cid_eqb id' id); [intro Q; inversion Q; destruct sigs; discriminate | apply W3].
-    + intros id' s j. rewrite Hv, Hrv. destruct (cid_eqb id' id) eqn:E.
-      * apply cid_eqb_eq in E; subst id'. intro Q; inversion Q; subst s. rewrite zmem_app. simpl. rewrite orb_false_r.
-        intro M. destruct (j =? idx) eqn:Ej.
-        -- apply in_or_app; right; left; auto.
-        -- rewrite orb_false_r in M. apply (W4 _ _ _ Hs M).
-      * intros Q M. destruct (j =? idx) eqn:Ej.
-        -- apply Z.eqb_eq in Ej; subst j. apply in_or_app; left. apply (W4 _ _ _ Q M).
-        -- apply (W4 _ _ _ Q M).
-  - split.
-    + rewrite Hr. apply (nodup_aset cid_eqb cid_eqb_eq); auto.
-    + rewrite Hrc. apply (nodup_aset Z.eqb zeqb_eq); auto.
-    + intros id' s. rewrite Hv. destruct (cid_eqb id' id); [intro Q; inversion Q; discriminate | apply W3].
-    + intros id' s j. rewrite Hv, Hrv. destruct (cid_eqb id' id) eqn:E.
-      * apply cid_eqb_eq in E; subst id'. intro Q; inversion Q; subst s. simpl. rewrite orb_false_r. intro M. rewrite M.
-        apply in_or_app; right; left; auto.
-      * intros Q M. destruct (j =? idx) eqn:Ej.
-        -- apply Z.eqb_eq in Ej; subst j. apply in_or_app; left. apply (W4 _ _ _ Q M).
-        -- apply (W4 _ _ _ Q M).
-  - split.
-    + rewrite Hr. apply (nodup_aset cid_eqb cid_eqb_eq).
-      destruct (is_nil (zremove idx hs)); [apply (nodup_adel cid_eqb cid_eqb_eq) | apply (nodup_aset cid_eqb cid_eqb_eq)]; auto.
-    + rewrite Hrc. apply (nodup_aset Z.eqb zeqb_eq); auto.
-    + intros id' s. rewrite Hv. destruct (cid_eqb id' id); [intro Q; inversion Q; discriminate|].
-      destruct (cid_eqb id' h); [|apply W3].
-      destruct (is_nil (zremove idx hs)) eqn:En; [discriminate|]. intro Q; inversion Q; subst s.
-      intro Z0. rewrite Z0 in En. discriminate.
-    + intros id' s j. rewrite Hv, Hrv. destruct (cid_eqb id' id) eqn:E.
-      * apply cid_eqb_eq in E; subst id'. intro Q; inversion Q; subst s. simpl. rewrite orb_false_r. intro M. rewrite M.
-        apply in_or_app; right; left; auto.
-      * destruct (cid_eqb id' h) eqn:E2.
-        -- apply cid_eqb_eq in E2; subst id'. destruct (is_nil (zremove idx hs)); [discriminate|].
-           intro Q; inversion Q; subst s. rewrite zmem_zremove. intro M. apply andb_true_iff in M as [M1 M2].
-           apply negb_true_iff in M1. rewrite M1. apply (W4 _ _ _ Hh M2).
-        -- intros Q M. destruct (j =? idx) eqn:Ej.
-           ++ apply Z.eqb_eq in Ej; subst j. pose proof (W4 _ _ _ Q M) as I. rewrite HL in I.
-              destruct I as [I|I]; [subst; rewrite cid_eqb_refl in E2; discriminate|].
-              apply in_or_app; left. apply in_or_app; left; auto.
-           ++ apply (W4 _ _ _ Q M).
+  intros W H. apply pc_append_spec in H as [->|[L1 [evh A]]]; auto.
+  destruct (add_kept _ _ _ _ _ _ _ A W) as [K1 [K2 K3]]. destruct W as [W1 W2 W3 W4 W5 W6].
+  split.
+  - apply (as_keys _ _ _ _ _ _ _ A); auto.
+  - apply (as_rkeys _ _ _ _ _ _ _ A); auto.
+  - apply (as_nonempty _ _ _ _ _ _ _ A); auto.
+  - intros i j. rewrite (as_has _ _ _ _ _ _ _ A), (as_rcvd _ _ _ _ _ _ _ A). intro H.
+    apply orb_true_iff in H as [H|H].
+    + apply andb_true_iff in H as [H1 H2]. apply negb_true_iff in H2. destruct (j =? idx) eqn:Ej.
+      * apply Z.eqb_eq in Ej; subst j. rewrite andb_true_r in H2. apply in_or_app; left. apply K3; auto.
+      * apply W4; auto.
+    + apply andb_true_iff in H as [H1 H2]. apply cid_eqb_eq in H1. subst i. rewrite H2. apply in_or_app; right; left; auto.
+  - intros i j. rewrite (as_has _ _ _ _ _ _ _ A), (as_rcvd _ _ _ _ _ _ _ A). destruct (j =? idx) eqn:Ej.
+    + intro H. apply in_app_or in H as [H|[H|[]]].
+      * destruct (K2 _ H) as [Q1 Q2]. apply Z.eqb_eq in Ej; subst j. rewrite (W5 _ _ Q1), Q2. auto.
+      * subst i. rewrite cid_eqb_refl. simpl. apply orb_true_r.
+    + intro H. rewrite (W5 _ _ H). rewrite andb_false_r. auto.
+  - intro j. rewrite (as_rcvd _ _ _ _ _ _ _ A). destruct (j =? idx); auto.
+    apply NoDup_app_single; auto. intro H. destruct (K2 _ H) as [Q1 _].
+    pose proof (W5 _ _ Q1) as Q. rewrite (as_new _ _ _ _ _ _ _ A) in Q. discriminate.
 Qed.
+
+Lemma flushed_has c r x j : wf c -> flushed c r x j = true <-> (has_entry c j x = true /\ fst x <= r).
+Proof.
+  intro W. rewrite flushed_spec, has_entry_sigs. split.
+  - intros [s [Hin [H1 H2]]]. split; auto. exists s. split; auto. apply (In_aget cid_eqb cid_eqb_eq); auto. apply (wf_keys _ W).
+  - intros [[s [E H2]] H1]. exists s. split; auto. apply (aget_In cid_eqb cid_eqb_eq); auto.
+Qed.
+
+Lemma has_flush c r j id : has_entry (pc_flush c r) j id = has_entry c j id && negb (fst id <=? r).
+Proof. unfold has_entry. rewrite sigs_flush. destruct (fst id <=? r); simpl; [rewrite andb_false_r | rewrite andb_true_r]; auto. Qed.
 
 Lemma wf_flush c r : wf c -> wf (pc_flush c r).
 Proof.
-  intros [W1 W2 W3 W4]. split.
+  intro W. pose proof W as [W1 W2 W3 W4 W5 W6]. split.
   - simpl. apply nodup_filter_keys; auto.
   - simpl. apply (keys_filter_map (fun k l => filter (fun x => negb (flushed c r x k)) l)); auto.
   - intros id s. rewrite sigs_flush. destruct (fst id <=? r); [discriminate | apply W3].
-  - intros id s j. rewrite sigs_flush, rcvd_flush; auto. destruct (fst id <=? r) eqn:E; [discriminate|].
-    intros Q M. apply filter_In. split; [apply (W4 _ _ _ Q M)|].
-    apply negb_true_iff. destruct (flushed c r id j) eqn:F; auto.
-    apply flushed_spec in F as [s' [_ [F _]]]. apply Z.leb_gt in E. lia.
+  - intros i j. rewrite has_flush, rcvd_flush; auto. intro H. apply andb_true_iff in H as [H1 H2].
+    apply filter_In. split; [apply W4; auto|]. apply negb_true_iff. destruct (flushed c r i j) eqn:F; auto.
+    apply (flushed_has c r i j W) in F as [_ F]. apply negb_true_iff in H2. apply Z.leb_gt in H2. lia.
+  - intros i j. rewrite has_flush, rcvd_flush; auto. intro H. apply filter_In in H as [H F].
+    rewrite (W5 _ _ H). simpl. apply negb_true_iff in F. destruct (fst i <=? r) eqn:E; auto.
+    assert (flushed c r i j = true); [|congruence]. apply (flushed_has c r i j W). split; [apply W5; auto | apply Z.leb_le; auto].
+  - intro j. rewrite rcvd_flush; auto. apply NoDup_filter; auto.
 Qed.
 
 Lemma wf_step cap c o : wf c -> wf (fst (pc_step cap c o)).
@@ -417,240 +455,68 @@ Qed.
 Lemma wf_run cap ops : forall c, wf c -> wf (pc_run cap c ops).
 Proof. induction ops as [|o t IH]; simpl; auto. intros c W. apply IH. apply wf_step; auto. Qed.
 
+(* ---- the per-signer cap ---- *)
+Definition capped (cap : Z) (c : pcache) : Prop := forall j, Z.of_nat (length (rcvd_of c j)) <= cap.
 
-(* ---- isolation by index: one Append on behalf of signer A never removes (j, id') for j <> A;
-        holds in every state, for every scheme ---- *)
-Lemma isolation_step cap c A id c' e j id' :
-  pc_append cap c A id = (c', e) -> j <> A -> has_entry c j id' = true -> has_entry c' j id' = true.
-Proof.
-  intros H N. apply pc_append_cases in H. unfold has_entry.
-  destruct H as [-> | sigs Hs Hm He Hr Hrc Hv Hrv | Hs Hlt He Hr Hrc Hv Hrv | h t hs Hs Hle He HL Hh Hne Hr Hrc Hv Hrv]; auto.
-  - rewrite Hv. destruct (cid_eqb id' id) eqn:E; auto. apply cid_eqb_eq in E; subst. rewrite Hs.
-    intro M. rewrite zmem_app, M. auto.
-  - rewrite Hv. destruct (cid_eqb id' id) eqn:E; auto. apply cid_eqb_eq in E; subst. rewrite Hs. discriminate.
-  - rewrite Hv. destruct (cid_eqb id' id) eqn:E.
-    + apply cid_eqb_eq in E; subst. rewrite Hs. discriminate.
-    + destruct (cid_eqb id' h) eqn:E2; auto. apply cid_eqb_eq in E2; subst. rewrite Hh. intro M.
-      assert (M' : zmem j (zremove A hs) = true).
-      { rewrite zmem_zremove, M. destruct (j =? A) eqn:EE; auto. apply Z.eqb_eq in EE; contradiction. }
-      destruct (zremove A hs); simpl in *; [discriminate | auto].
-Qed.
-
-Lemma flush_keeps c r j id : has_entry c j id = true -> r < fst id -> has_entry (pc_flush c r) j id = true.
-Proof.
-  unfold has_entry. rewrite sigs_flush. intros H L. destruct (fst id <=? r) eqn:E; auto. apply Z.leb_le in E. lia.
-Qed.
-
-(* ---- counting ---- *)
-Lemma live_count_cnt c j : live_count c j = cnt (fun e => zmem j (snd e)) (rounds c).
-Proof. reflexivity. Qed.
-
-Lemma live_le_rcvd c j : wf c -> (live_count c j <= length (rcvd_of c j))%nat.
-Proof.
-  intros [W1 W2 W3 W4]. unfold live_count.
-  rewrite <- (map_length fst). apply NoDup_incl_length.
-  - apply nodup_filter_keys; auto.
-  - intros id H. apply in_map_iff in H as [[k s] [E H]]. simpl in E; subst k.
-    apply filter_In in H as [H M]. simpl in M.
-    apply (W4 id s j); auto. apply (In_aget cid_eqb cid_eqb_eq); auto.
-Qed.
-
-Lemma cnt_filter_le {K V} (P Q : K * V -> bool) l : (cnt P (filter Q l) <= cnt P l)%nat.
-Proof.
-  unfold cnt. induction l as [|e l IH]; simpl; auto.
-  destruct (Q e); simpl; destruct (P e); simpl; lia.
-Qed.
-
-(* ---- doubled lists ---- *)
-Definition dbl (D : list cid) : list cid := flat_map (fun x => [x; x]) D.
-Lemma dbl_app a b : dbl (a ++ b) = dbl a ++ dbl b.
-Proof. unfold dbl. apply flat_map_app. Qed.
-Lemma filter_dbl f D : filter f (dbl D) = dbl (filter f D).
-Proof. induction D as [|x D IH]; simpl; auto. destruct (f x); simpl; rewrite IH; auto. Qed.
-Lemma length_dbl D : length (dbl D) = (2 * length D)%nat.
-Proof. induction D; simpl; auto. rewrite IHD. lia. Qed.
 Lemma filter_length_le {A} (f : A -> bool) l : (length (filter f l) <= length l)%nat.
 Proof. induction l; simpl; auto. destruct (f a); simpl; lia. Qed.
 
-(* ---- bounds when no round cache is shared by two signer indices ---- *)
-Section Private.
-  Variable cap : Z.
-  Hypothesis cap_pos : 0 < cap.
-  Variable own : Z -> cid -> Prop.
-  Hypothesis own_fun : forall i j id, own i id -> own j id -> i = j.
+Lemma capped_append cap c idx id c' e : capped cap c -> pc_append cap c idx id = (c', e) -> capped cap c'.
+Proof.
+  intros Cp H. apply pc_append_spec in H as [->|[L1 [evh A]]]; auto.
+  intro j. rewrite (as_rcvd _ _ _ _ _ _ _ A). destruct (j =? idx); auto. rewrite app_length. simpl.
+  destruct evh as [h|].
+  - destruct (as_evict _ _ _ _ _ _ _ A h eq_refl) as [_ [E _]]. specialize (Cp idx). rewrite E in Cp. simpl in Cp. lia.
+  - destruct (as_plain _ _ _ _ _ _ _ A eq_refl) as [Lt E]. subst L1. lia.
+Qed.
+Lemma capped_flush cap c r : wf c -> capped cap c -> capped cap (pc_flush c r).
+Proof.
+  intros W Cp j. rewrite rcvd_flush; [|apply (wf_rkeys _ W)]. specialize (Cp j).
+  pose proof (filter_length_le (fun x => negb (flushed c r x j)) (rcvd_of c j)). lia.
+Qed.
+Lemma capped_run cap ops : forall c, wf c -> capped cap c -> capped cap (pc_run cap c ops).
+Proof.
+  induction ops as [|o t IH]; simpl; auto. intros c W Cp. apply IH; [apply wf_step; auto|].
+  destruct o as [idx id | id | r]; simpl; auto.
+  - destruct (pc_append cap c idx id) as [c' e] eqn:H. simpl. eapply capped_append; eauto.
+  - apply capped_flush; auto.
+Qed.
 
-  Definition shape (c : pcache) (j : Z) : Prop :=
-    exists A D, rcvd_of c j = A ++ dbl D /\
-      (Z.of_nat (length A + length D) <= cap \/
-       (Z.of_nat (length A + length D) = cap + 1 /\ exists h A0, A = h :: A0 /\ sigs_of c h = None)).
+(* ---- isolation by index ---- *)
+Lemma isolation_step cap c A id c' e j id' :
+  pc_append cap c A id = (c', e) -> j <> A -> has_entry c j id' = true -> has_entry c' j id' = true.
+Proof.
+  intros H N E. apply pc_append_spec in H as [->|[L1 [evh S]]]; auto.
+  rewrite (as_has _ _ _ _ _ _ _ S), E. apply Z.eqb_neq in N. rewrite N, andb_false_r. auto.
+Qed.
+Lemma flush_keeps c r j id : has_entry c j id = true -> r < fst id -> has_entry (pc_flush c r) j id = true.
+Proof. intros H L. rewrite has_flush, H. simpl. apply negb_true_iff. apply Z.leb_gt. lia. Qed.
 
-  Record pinv (c : pcache) : Prop := {
-    pi_wf : wf c;
-    pi_single : forall id sigs, sigs_of c id = Some sigs -> exists i, sigs = [i] /\ own i id;
-    pi_own : forall j id, In id (rcvd_of c j) -> own j id;
-    pi_shape : forall j, shape c j;
-    pi_live : forall j, Z.of_nat (live_count c j) <= cap
-  }.
-
-  Lemma pinv_init : pinv pc_init.
-  Proof.
-    split.
-    - apply wf_init.
-    - unfold sigs_of; simpl; discriminate.
-    - unfold rcvd_of; simpl; tauto.
-    - intro j. exists [], []. split; auto. left. simpl. lia.
-    - intro j. simpl. lia.
-  Qed.
-
-  Lemma shape_other c c' j :
-    rcvd_of c' j = rcvd_of c j ->
-    (forall h, In h (rcvd_of c j) -> sigs_of c h = None -> sigs_of c' h = None) ->
-    shape c j -> shape c' j.
-  Proof.
-    intros E Hs [A [D [HL HC]]]. exists A, D. rewrite E. split; auto.
-    destruct HC as [HC | [HC [h [A0 [EA Hn]]]]]; [left; auto|right]. split; auto.
-    exists h, A0. split; auto. apply Hs; auto. rewrite HL, EA. left; auto.
-  Qed.
-
-  Lemma pinv_append c idx id c' e : pinv c -> own idx id -> pc_append cap c idx id = (c', e) -> pinv c'.
-  Proof.
-    intros I O H. pose proof (wf_append _ _ _ _ _ _ (pi_wf _ I) H) as W'.
-    apply pc_append_cases in H. destruct I as [W S1 S2 S3 S4].
-    destruct H as [-> | sigs Hs Hm He Hr Hrc Hv Hrv | Hs Hlt He Hr Hrc Hv Hrv | h t hs Hs Hle He HL Hh Hne Hr Hrc Hv Hrv].
-    - split; auto.
-    - (* join: impossible, the cache of id can only hold its owner *)
-      exfalso. destruct (S1 _ _ Hs) as [i [E Oi]]. subst sigs. rewrite (own_fun _ _ _ Oi O) in Hm.
-      simpl in Hm. rewrite Z.eqb_refl in Hm. discriminate.
-    - (* create without eviction *)
-      split; auto.
-      + intros id' s. rewrite Hv. destruct (cid_eqb id' id) eqn:E; [|apply S1].
-        apply cid_eqb_eq in E; subst. intro Q; inversion Q. exists idx; auto.
-      + intros j id'. rewrite Hrv. destruct (j =? idx) eqn:E; [|apply S2].
-        apply Z.eqb_eq in E; subst. intro Q. apply in_app_or in Q as [Q|[Q|[]]]; [apply S2; auto | subst; auto].
-      + intro j. destruct (Z.eq_dec j idx) as [->|N].
-        * exists (rcvd_of c idx ++ [id]), []. rewrite Hrv, Z.eqb_refl. simpl. rewrite app_nil_r. split; auto.
-          left. rewrite app_length. simpl. lia.
-        * apply (shape_other c); auto.
-          -- rewrite Hrv. destruct (j =? idx) eqn:E; auto. apply Z.eqb_eq in E; contradiction.
-          -- intros h Hin Hn. rewrite Hv. destruct (cid_eqb h id) eqn:E; auto.
-             apply cid_eqb_eq in E; subst. exfalso. apply N. apply (own_fun _ _ id); auto.
-      + intro j. rewrite live_count_cnt, Hr.
-        rewrite (cnt_aset_new cid_eqb); auto. simpl. rewrite orb_false_r.
-        destruct (j =? idx) eqn:E; simpl.
-        * apply Z.eqb_eq in E; subst. pose proof (live_le_rcvd c idx W). rewrite live_count_cnt in H. lia.
-        * specialize (S4 j). rewrite live_count_cnt in S4. lia.
-    - (* create with eviction: the evicted cache holds idx only, so it is deleted *)
-      assert (Oh : own idx h) by (apply S2; rewrite HL; left; auto).
-      destruct (S1 _ _ Hh) as [i [E Oi]]. assert (i = idx) by (apply (own_fun _ _ h); auto). subst i hs.
-      simpl in Hv, Hr. rewrite Z.eqb_refl in Hv, Hr. simpl in Hv, Hr.
-      split; auto.
-      + intros id' s. rewrite Hv. destruct (cid_eqb id' id) eqn:E.
-        * apply cid_eqb_eq in E; subst. intro Q; inversion Q. exists idx; auto.
-        * destruct (cid_eqb id' h); [discriminate | apply S1].
-      + intros j id'. rewrite Hrv. destruct (j =? idx) eqn:E; [|apply S2].
-        apply Z.eqb_eq in E; subst. intro Q.
-        apply in_app_or in Q as [Q|[Q|[]]]; [|subst; auto].
-        apply in_app_or in Q as [Q|[Q|[]]]; [|subst; auto].
-        apply S2. rewrite HL. right; auto.
-      + intro j. destruct (Z.eq_dec j idx) as [->|N].
-        * destruct (S3 idx) as [A [D [EL HC]]]. pose proof (Hrv idx) as Hri. rewrite Z.eqb_refl in Hri.
-          unfold shape. rewrite Hri.
-          destruct A as [|a A0].
-          -- (* the list is all pairs: the head pair is split, its second copy becomes stale *)
-             simpl in EL. destruct D as [|d D0]; [rewrite HL in EL; discriminate|].
-             simpl in EL. rewrite HL in EL. inversion EL; subst d t.
-             exists [h], (D0 ++ [id]). split.
-             ++ rewrite dbl_app. simpl. rewrite <- !app_assoc. reflexivity.
-             ++ destruct HC as [HC | [_ [h' [A0' [EA _]]]]]; [|discriminate].
-                simpl in HC. rewrite app_length. simpl.
-                destruct (Z.eq_dec (Z.of_nat (1 + (length D0 + 1))) (cap + 1)) as [Q|Q].
-                ** right. split; auto. exists h, []. split; auto. rewrite Hv.
-                   rewrite (cid_eqb_neq h id); auto. rewrite cid_eqb_refl. auto.
-                ** left. lia.
-          -- simpl in EL. rewrite HL in EL. inversion EL; subst a t.
-             exists A0, (D ++ [id]). split.
-             ++ rewrite dbl_app. simpl. rewrite <- !app_assoc. reflexivity.
-             ++ destruct HC as [HC | [_ [h' [A0' [EA Hn]]]]].
-                ** left. simpl in HC. rewrite app_length. simpl. lia.
-                ** inversion EA; subst. congruence.
-        * apply (shape_other c); auto.
-          -- rewrite Hrv. destruct (j =? idx) eqn:E; auto. apply Z.eqb_eq in E; contradiction.
-          -- intros h' Hin Hn. rewrite Hv. destruct (cid_eqb h' id) eqn:E.
-             ++ apply cid_eqb_eq in E; subst. exfalso. apply N. apply (own_fun _ _ id); auto.
-             ++ destruct (cid_eqb h' h); auto.
-      + intro j. rewrite live_count_cnt, Hr.
-        assert (Hn : aget cid_eqb id (adel cid_eqb h (rounds c)) = None).
-        { pose proof (sigs_adel h (rounds c) [] id) as Q. unfold sigs_of in Q; simpl in Q. rewrite Q.
-          destruct (cid_eqb id h); auto. }
-        rewrite (cnt_aset_new cid_eqb); auto.
-        pose proof (cnt_adel cid_eqb cid_eqb_eq (fun e => zmem j (snd e)) h [idx] (rounds c) (wf_keys _ W) Hh) as Q.
-        simpl in *. rewrite orb_false_r in *. specialize (S4 j). rewrite live_count_cnt in S4.
-        destruct (j =? idx); simpl in *; lia.
-  Qed.
-
-  Lemma pinv_flush c r : pinv c -> pinv (pc_flush c r).
-  Proof.
-    intros [W S1 S2 S3 S4]. split.
-    - apply wf_flush; auto.
-    - intros id s. rewrite sigs_flush. destruct (fst id <=? r); [discriminate | apply S1].
-    - intros j id. rewrite rcvd_flush; [|apply (wf_rkeys _ W)]. intro Q. apply filter_In in Q as [Q _]. apply S2; auto.
-    - intro j. destruct (S3 j) as [A [D [EL HC]]].
-      unfold shape. rewrite rcvd_flush; [|apply (wf_rkeys _ W)]. rewrite EL, filter_app, filter_dbl.
-      set (f := fun x => negb (flushed c r x j)).
-      exists (filter f A), (filter f D). split; auto.
-      pose proof (filter_length_le f A). pose proof (filter_length_le f D).
-      destruct HC as [HC | [HC [h [A0 [EA Hn]]]]]; [left; lia|].
-      destruct (Z.eq_dec (Z.of_nat (length (filter f A) + length (filter f D))) (cap + 1)) as [Q|Q]; [right|left; lia].
-      split; auto. subst A. simpl. assert (Fh : f h = true).
-      { unfold f. apply negb_true_iff. destruct (flushed c r h j) eqn:F; auto. apply flushed_cached in F. contradiction. }
-      rewrite Fh. exists h, (filter f A0). split; auto. rewrite sigs_flush. destruct (fst h <=? r); auto.
-    - intro j. specialize (S4 j). unfold live_count in *. unfold pc_flush; simpl rounds.
-      pose proof (cnt_filter_le (fun e : cid * list Z => zmem j (snd e)) (fun e => negb (fst (fst e) <=? r)) (rounds c)) as Q.
-      unfold cnt in Q. eapply Z.le_trans; [|exact S4]. apply Nat2Z.inj_le. exact Q.
-  Qed.
-
-  Definition op_private (o : cop) : Prop :=
-    match o with CAppend idx id => own idx id | _ => True end.
-
-  Lemma pinv_run ops : forall c, pinv c -> Forall op_private ops -> pinv (pc_run cap c ops).
-  Proof.
-    induction ops as [|o t IH]; simpl; auto. intros c I F. inversion F; subst. apply IH; auto.
-    destruct o as [idx id | id | r]; simpl; auto.
-    - destruct (pc_append cap c idx id) as [c' e] eqn:H. simpl. eapply pinv_append; eauto.
-    - apply pinv_flush; auto.
-  Qed.
-
-  Lemma shape_bound c j : shape c j -> Z.of_nat (length (rcvd_of c j)) <= 2 * cap + 1.
-  Proof.
-    intros [A [D [EL HC]]]. rewrite EL, app_length, length_dbl.
-    destruct HC as [HC | [HC [h [A0 [EA _]]]]]; [lia|]. subst A. cbn [length] in *. lia.
-  Qed.
-End Private.
-
+(* ---- counting ---- *)
+Lemma live_le_rcvd c j : wf c -> (live_count c j <= length (rcvd_of c j))%nat.
+Proof.
+  intro W. unfold live_count. rewrite <- (map_length fst). apply NoDup_incl_length.
+  - apply nodup_filter_keys; auto. apply (wf_keys _ W).
+  - intros id H. apply in_map_iff in H as [[k s] [E H]]. simpl in E; subst k.
+    apply filter_In in H as [H M]. simpl in M. apply (wf_rcvd _ W). apply has_entry_sigs. exists s. split; auto.
+    apply (In_aget cid_eqb cid_eqb_eq); auto. apply (wf_keys _ W).
+Qed.
 
 Lemma pc_run_app cap a b : forall c, pc_run cap c (a ++ b) = pc_run cap (pc_run cap c a) b.
 Proof. induction a as [|o a IH]; simpl; auto. Qed.
 
 (* ---- signers of cached entries come from the operation list ---- *)
-Definition sig_in (S : list Z) (c : pcache) : Prop :=
-  forall id sigs i, sigs_of c id = Some sigs -> zmem i sigs = true -> In i S.
+Definition sig_in (S : list Z) (c : pcache) : Prop := forall id i, has_entry c i id = true -> In i S.
 
 Lemma sig_in_append S cap c idx id c' e : sig_in S c -> In idx S -> pc_append cap c idx id = (c', e) -> sig_in S c'.
 Proof.
-  intros I Hin H. apply pc_append_cases in H. unfold sig_in in *.
-  destruct H as [-> | sigs Hs Hm He Hr Hrc Hv Hrv | Hs Hlt He Hr Hrc Hv Hrv | h t hs Hs Hle He HL Hh Hne Hr Hrc Hv Hrv]; auto.
-  - intros id' s i. rewrite Hv. destruct (cid_eqb id' id); [|apply I].
-    intro Q; inversion Q; subst. rewrite zmem_app. simpl. rewrite orb_false_r. intro M.
-    apply orb_true_iff in M as [M|M]; [apply (I _ _ _ Hs M) | apply Z.eqb_eq in M; subst; auto].
-  - intros id' s i. rewrite Hv. destruct (cid_eqb id' id); [|apply I].
-    intro Q; inversion Q; subst. simpl. rewrite orb_false_r. intro M. apply Z.eqb_eq in M; subst; auto.
-  - intros id' s i. rewrite Hv. destruct (cid_eqb id' id).
-    + intro Q; inversion Q; subst. simpl. rewrite orb_false_r. intro M. apply Z.eqb_eq in M; subst; auto.
-    + destruct (cid_eqb id' h); [|apply I]. destruct (is_nil (zremove idx hs)); [discriminate|].
-      intro Q; inversion Q; subst. rewrite zmem_zremove. intro M. apply andb_true_iff in M as [_ M]. apply (I _ _ _ Hh M).
+  intros I Hin H. apply pc_append_spec in H as [->|[L1 [evh A]]]; auto.
+  intros i x. rewrite (as_has _ _ _ _ _ _ _ A). intro Q. apply orb_true_iff in Q as [Q|Q].
+  - apply andb_true_iff in Q as [Q _]. apply (I _ _ Q).
+  - apply andb_true_iff in Q as [_ Q]. apply Z.eqb_eq in Q. subst; auto.
 Qed.
 Lemma sig_in_flush S c r : sig_in S c -> sig_in S (pc_flush c r).
-Proof. unfold sig_in. intros I id s i. rewrite sigs_flush. destruct (fst id <=? r); [discriminate | apply I]. Qed.
+Proof. intros I i x. rewrite has_flush. intro Q. apply andb_true_iff in Q as [Q _]. apply (I _ _ Q). Qed.
 
 Definition op_signer_in (S : list Z) (o : cop) : Prop :=
   match o with CAppend idx _ => In idx S | _ => True end.
@@ -661,8 +527,6 @@ Proof.
   - destruct (pc_append cap c idx id) as [c' e] eqn:H. simpl. eapply sig_in_append; eauto.
   - apply sig_in_flush; auto.
 Qed.
-
-(* ---- sums ---- *)
 Lemma sum_split {A} (f g : A -> nat) S :
   list_sum (map (fun k => (f k + g k)%nat) S) = (list_sum (map f S) + list_sum (map g S))%nat.
 Proof. induction S; simpl; auto. rewrite IHS. lia. Qed.
@@ -698,11 +562,11 @@ Proof.
   - intros [id s] Hin. simpl.
     assert (Q : sigs_of c id = Some s) by (apply (In_aget cid_eqb cid_eqb_eq); auto; apply (wf_keys _ W)).
     destruct s as [|i s']; [exfalso; apply (wf_nonempty _ W _ _ Q); auto|].
-    exists i. split; [apply (I _ _ _ Q); simpl; rewrite Z.eqb_refl; auto | simpl; rewrite Z.eqb_refl; auto].
+    exists i. split; [|simpl; rewrite Z.eqb_refl; auto]. apply (I id). apply has_entry_sigs. exists (i :: s'). split; auto.
+    simpl. rewrite Z.eqb_refl; auto.
   - apply sum_le_const. intro k. apply L.
 Qed.
 
-(* ---- store window ---- *)
 Definition in_window (limit extra : Z) (a : agg) : Prop :=
   forall id sigs, sigs_of (a_cache a) id = Some sigs -> a_head a < fst id <= a_head a + limit + extra.
 
@@ -715,14 +579,9 @@ Proof.
     apply Z.leb_gt in E. intro Q. specialize (I _ _ Q). lia.
   - destruct (should_store limit extra (a_head a) (fst id)) eqn:Sh; auto.
     unfold should_store in Sh. apply andb_true_iff in Sh as [S1 S2]. apply Z.ltb_lt in S1. apply Z.leb_le in S2.
-    destruct (pc_append cap (a_cache a) idx id) as [c' er] eqn:H. simpl. apply pc_append_cases in H.
-    intros id' s. simpl.
-    destruct H as [-> | sigs Hs Hm He Hr Hrc Hv Hrv | Hs Hlt He Hr Hrc Hv Hrv | h t hs Hs Hle He HL Hh Hne Hr Hrc Hv Hrv].
-    + apply I.
-    + rewrite Hv. destruct (cid_eqb id' id) eqn:E; [apply cid_eqb_eq in E; subst; intros _; lia | apply I].
-    + rewrite Hv. destruct (cid_eqb id' id) eqn:E; [apply cid_eqb_eq in E; subst; intros _; lia | apply I].
-    + rewrite Hv. destruct (cid_eqb id' id) eqn:E; [apply cid_eqb_eq in E; subst; intros _; lia |].
-      destruct (cid_eqb id' h) eqn:E2; [|apply I]. apply cid_eqb_eq in E2; subst. intros _. apply (I _ _ Hh).
+    destruct (pc_append cap (a_cache a) idx id) as [c' er] eqn:H. simpl.
+    apply pc_append_spec in H as [->|[L1 [evh A]]]; [apply I|].
+    intros id' s Q. destruct (as_exists _ _ _ _ _ _ _ A _ _ Q) as [->|[s0 Q0]]; simpl; [lia | apply (I _ _ Q0)].
   - intros id s. simpl. rewrite sigs_flush. destruct (fst id <=? r) eqn:E; [discriminate|].
     apply Z.leb_gt in E. intro Q. specialize (I _ _ Q).
     destruct ((a_head a + 1 =? r) && ok) eqn:B; [|lia].
@@ -771,13 +630,6 @@ Qed.
 Lemma wf_agg_run cap limit extra es : forall a, wf (a_cache a) -> wf (a_cache (agg_run cap limit extra a es)).
 Proof. induction es as [|e t IH]; simpl; auto. intros a W. apply IH. apply wf_agg_step; auto. Qed.
 
-Lemma NoDup_app_single {A} (l : list A) x : NoDup l -> ~ In x l -> NoDup (l ++ [x]).
-Proof.
-  induction l as [|a l IH]; simpl; intros ND N; [constructor; auto; constructor|].
-  inversion ND; subst. constructor.
-  - intro Q. apply in_app_or in Q as [Q|[Q|[]]]; [auto | subst; apply N; auto].
-  - apply IH; auto.
-Qed.
 
 (* ---- a victim that signs at most cap ids is never evicted ---- *)
 Section Victim.
@@ -788,14 +640,13 @@ Section Victim.
 
   Record vinv (c : pcache) : Prop := {
     vi_wf : wf c;
-    vi_nodup : NoDup (rcvd_of c V);
-    vi_in : forall id, In id (rcvd_of c V) -> In id G /\ has_entry c V id = true
+    vi_in : forall id, In id (rcvd_of c V) -> In id G
   }.
   Definition op_genuine (o : cop) : Prop :=
     match o with CAppend idx id => idx = V -> In id G | _ => True end.
 
   Lemma vinv_init : vinv pc_init.
-  Proof. split; [apply wf_init | constructor | unfold rcvd_of; simpl; tauto]. Qed.
+  Proof. split; [apply wf_init | unfold rcvd_of; simpl; tauto]. Qed.
 
   Lemma short_list (L : list cid) id : NoDup L -> incl L G -> In id G -> ~ In id L -> Z.of_nat (length L) < cap.
   Proof.
@@ -805,20 +656,14 @@ Section Victim.
     simpl in H. lia.
   Qed.
 
-  Lemma has_entry_rcvd c j id : wf c -> has_entry c j id = true -> In id (rcvd_of c j).
+  (* an Append on behalf of V with a genuine id never evicts *)
+  Lemma victim_no_evict c id c' L1 h :
+    vinv c -> In id G -> add_spec cap c V id c' L1 (Some h) -> False.
   Proof.
-    unfold has_entry. intros W H. destruct (sigs_of c id) as [s|] eqn:Q; [|discriminate].
-    apply (wf_rcvd _ W _ _ _ Q H).
-  Qed.
-
-  (* an Append on behalf of V with a genuine id never takes the eviction path *)
-  Lemma victim_no_evict c id :
-    vinv c -> In id G -> sigs_of c id = None -> cap <= Z.of_nat (length (rcvd_of c V)) -> False.
-  Proof.
-    intros [W ND Hin] Hg Hs Hle.
+    intros [W Hin] Hg A. destruct (as_evict _ _ _ _ _ _ _ A h eq_refl) as [Hle _].
     assert (~ In id (rcvd_of c V)).
-    { intro Q. destruct (Hin _ Q) as [_ Q2]. unfold has_entry in Q2. rewrite Hs in Q2. discriminate. }
-    pose proof (short_list (rcvd_of c V) id ND (fun x Hx => proj1 (Hin x Hx)) Hg H). lia.
+    { intro Q. pose proof (wf_stale _ W _ _ Q) as Q2. rewrite (as_new _ _ _ _ _ _ _ A) in Q2. discriminate. }
+    pose proof (short_list (rcvd_of c V) id (wf_nodup _ W V) Hin Hg H). lia.
   Qed.
 
   Lemma victim_append_keeps c idx id c' e id0 :
@@ -828,55 +673,24 @@ Section Victim.
     intros I Og H E0. destruct (Z.eq_dec idx V) as [->|N].
     2:{ eapply isolation_step; eauto. }
     simpl in Og. specialize (Og eq_refl).
-    apply pc_append_cases in H. unfold has_entry in *.
-    destruct H as [-> | sigs Hs Hm He Hr Hrc Hv Hrv | Hs Hlt He Hr Hrc Hv Hrv | h t hs Hs Hle He HL Hh Hne Hr Hrc Hv Hrv]; auto.
-    - rewrite Hv. destruct (cid_eqb id0 id) eqn:E; auto. rewrite zmem_app. simpl. rewrite Z.eqb_refl. rewrite orb_true_r; auto.
-    - rewrite Hv. destruct (cid_eqb id0 id) eqn:E; auto. simpl. rewrite Z.eqb_refl; auto.
-    - exfalso. eapply (victim_no_evict c id); eauto.
+    apply pc_append_spec in H as [->|[L1 [evh A]]]; auto.
+    destruct evh as [h|]; [exfalso; eapply victim_no_evict; eauto|].
+    rewrite (as_has _ _ _ _ _ _ _ A), E0. simpl. auto.
   Qed.
 
   Lemma vinv_append c idx id c' e : vinv c -> op_genuine (CAppend idx id) -> pc_append cap c idx id = (c', e) -> vinv c'.
   Proof.
-    intros I Og H. pose proof (wf_append _ _ _ _ _ _ (vi_wf _ I) H) as W'.
-    pose proof (victim_append_keeps c idx id c' e) as Keep.
-    pose proof H as H0. apply pc_append_cases in H. destruct (Z.eq_dec idx V) as [->|N].
-    - simpl in Og. specialize (Og eq_refl).
-      destruct H as [-> | sigs Hs Hm He Hr Hrc Hv Hrv | Hs Hlt He Hr Hrc Hv Hrv | h t hs Hs Hle He HL Hh Hne Hr Hrc Hv Hrv]; auto.
-      + assert (Hn : ~ In id (rcvd_of c V)).
-        { intro Q. destruct (vi_in _ I _ Q) as [_ Q2]. unfold has_entry in Q2. rewrite Hs, Hm in Q2. discriminate. }
-        split; auto.
-        * rewrite Hrv, Z.eqb_refl. apply NoDup_app_single; auto. apply (vi_nodup _ I).
-        * intro x. rewrite Hrv, Z.eqb_refl. intro Q. apply in_app_or in Q as [Q|[Q|[]]].
-          -- destruct (vi_in _ I _ Q) as [Q1 Q2]. split; auto. apply (Keep x I); auto. simpl; auto.
-          -- subst x. split; auto. unfold has_entry. rewrite Hv, cid_eqb_refl, zmem_app. simpl. rewrite Z.eqb_refl, orb_true_r; auto.
-      + assert (Hn : ~ In id (rcvd_of c V)).
-        { intro Q. destruct (vi_in _ I _ Q) as [_ Q2]. unfold has_entry in Q2. rewrite Hs in Q2. discriminate. }
-        split; auto.
-        * rewrite Hrv, Z.eqb_refl. apply NoDup_app_single; auto. apply (vi_nodup _ I).
-        * intro x. rewrite Hrv, Z.eqb_refl. intro Q. apply in_app_or in Q as [Q|[Q|[]]].
-          -- destruct (vi_in _ I _ Q) as [Q1 Q2]. split; auto. apply (Keep x I); auto. simpl; auto.
-          -- subst x. split; auto. unfold has_entry. rewrite Hv, cid_eqb_refl. simpl. rewrite Z.eqb_refl; auto.
-      + exfalso. eapply (victim_no_evict c id); eauto.
-    - assert (ER : rcvd_of c' V = rcvd_of c V).
-      { assert (EV : (V =? idx) = false) by (apply Z.eqb_neq; auto).
-        destruct H as [-> | sigs Hs Hm He Hr Hrc Hv Hrv | Hs Hlt He Hr Hrc Hv Hrv | h t hs Hs Hle He HL Hh Hne Hr Hrc Hv Hrv]; auto;
-        rewrite Hrv, EV; auto. }
-      split; auto.
-      + rewrite ER. apply (vi_nodup _ I).
-      + intro x. rewrite ER. intro Q. destruct (vi_in _ I _ Q) as [Q1 Q2]. split; auto; apply (Keep x I); auto.
+    intros I Og H. pose proof (wf_append _ _ _ _ _ _ (vi_wf _ I) H) as W'. split; auto.
+    apply pc_append_spec in H as [->|[L1 [evh A]]]; [apply (vi_in _ I)|].
+    intro x. rewrite (as_rcvd _ _ _ _ _ _ _ A). destruct (V =? idx) eqn:E; [|apply (vi_in _ I)].
+    apply Z.eqb_eq in E. subst idx. specialize (Og eq_refl). intro Q. apply in_app_or in Q as [Q|[Q|[]]]; [|subst; auto].
+    destruct (add_kept _ _ _ _ _ _ _ A (vi_wf _ I)) as [_ [K2 _]]. apply (vi_in _ I). apply K2; auto.
   Qed.
 
   Lemma vinv_flush c r : vinv c -> vinv (pc_flush c r).
   Proof.
-    intros [W ND Hin]. split.
-    - apply wf_flush; auto.
-    - rewrite rcvd_flush; [|apply (wf_rkeys _ W)]. apply NoDup_filter; auto.
-    - intro x. rewrite rcvd_flush; [|apply (wf_rkeys _ W)]. intro Q. apply filter_In in Q as [Q F].
-      destruct (Hin _ Q) as [Q1 Q2]. split; auto. apply negb_true_iff in F.
-      unfold has_entry in *. rewrite sigs_flush. destruct (sigs_of c x) as [s|] eqn:Hs; [|discriminate].
-      destruct (fst x <=? r) eqn:E; auto. exfalso.
-      assert (flushed c r x V = true); [|congruence].
-      apply flushed_spec. exists s. split; [apply (aget_In cid_eqb cid_eqb_eq); auto|]. split; auto. apply Z.leb_le; auto.
+    intros [W Hin]. split; [apply wf_flush; auto|].
+    intro x. rewrite rcvd_flush; [|apply (wf_rkeys _ W)]. intro Q. apply filter_In in Q as [Q _]. auto.
   Qed.
 
   Lemma vinv_run ops : forall c, vinv c -> Forall op_genuine ops -> vinv (pc_run cap c ops).
@@ -902,44 +716,49 @@ Section Victim.
   Qed.
 End Victim.
 
-
 (* ---- closed statements over operation lists ---- *)
-Definition ids_private (ops : list cop) : Prop :=
-  forall i j id, In (CAppend i id) ops -> In (CAppend j id) ops -> i = j.
 Definition op_signers (ops : list cop) : list Z :=
   nodup Z.eq_dec (flat_map (fun o => match o with CAppend i _ => [i] | _ => [] end) ops).
 
+(* per signer index: at most cap round caches and at most cap recorded ids; in total at most
+   cap x (number of signer indices) round caches *)
 Definition cache_bounds (cap : Z) (ops : list cop) : Prop :=
   let c := pc_run cap pc_init ops in
   (forall idx, Z.of_nat (live_count c idx) <= cap) /\
-  (forall idx, Z.of_nat (length (rcvd_of c idx)) <= 2 * cap + 1) /\
+  (forall idx, Z.of_nat (length (rcvd_of c idx)) <= cap) /\
   Z.of_nat (length (rounds c)) <= cap * Z.of_nat (length (op_signers ops)).
 
 Lemma sig_in_init S : sig_in S pc_init.
-Proof. unfold sig_in, sigs_of; simpl; discriminate. Qed.
+Proof. unfold sig_in, has_entry, sigs_of; simpl; discriminate. Qed.
 
-Lemma cache_bounded_private cap ops : 0 < cap -> ids_private ops -> cache_bounds cap ops.
-Proof.
-  intros Hc Hp.
-  set (own := fun i id => In (CAppend i id) ops).
-  assert (Hf : forall i j id, own i id -> own j id -> i = j) by (intros i j id; apply Hp).
-  assert (F : Forall (op_private own) ops).
-  { apply Forall_forall. intros o Ho. destruct o; simpl; auto. }
-  pose proof (pinv_run cap own Hf ops pc_init (pinv_init cap Hc own) F) as I.
-  unfold cache_bounds. split; [|split].
-  - apply (pi_live _ _ _ I).
-  - intro idx. apply shape_bound. apply (pi_shape _ _ _ I).
-  - apply rounds_le_signers.
-    + apply (pi_wf _ _ _ I).
-    + apply sig_in_run; [apply sig_in_init|]. apply Forall_forall. intros o Ho. destruct o as [i id| |]; simpl; auto.
-      unfold op_signers. apply nodup_In. apply in_flat_map. exists (CAppend i id). split; auto. left; auto.
-    + apply (pi_live _ _ _ I).
-Qed.
-
-(* every state reachable by any operation list is well formed: unique keys, no empty round
-   cache, and every cached (idx, id) has id in rcvd[idx] *)
 Lemma reachable_wf cap ops : wf (pc_run cap pc_init ops).
 Proof. apply wf_run. apply wf_init. Qed.
+
+Theorem cache_bounded cap ops : 0 < cap -> cache_bounds cap ops.
+Proof.
+  intro Hc. pose proof (reachable_wf cap ops) as W.
+  assert (Cp : capped cap (pc_run cap pc_init ops)).
+  { apply capped_run; [apply wf_init|]. intro j. unfold rcvd_of; simpl. lia. }
+  assert (Lv : forall idx, Z.of_nat (live_count (pc_run cap pc_init ops) idx) <= cap).
+  { intro idx. pose proof (live_le_rcvd _ idx W). specialize (Cp idx). lia. }
+  unfold cache_bounds. split; [exact Lv|]. split; [exact Cp|].
+  apply rounds_le_signers; auto.
+  apply sig_in_run; [apply sig_in_init|]. apply Forall_forall. intros o Ho. destruct o as [i id| |]; simpl; auto.
+  unfold op_signers. apply nodup_In. apply in_flat_map. exists (CAppend i id). split; auto. left; auto.
+Qed.
+
+(* the recorded ids of an index are exactly the round caches it is in: the eviction never meets a
+   missing round cache *)
+Theorem append_never_misses cap ops idx id :
+  snd (pc_append cap (pc_run cap pc_init ops) idx id) <> CErrEvictMissing.
+Proof.
+  pose proof (reachable_wf cap ops) as W. set (c := pc_run cap pc_init ops) in *.
+  unfold pc_append. destruct (has_entry c idx id); [discriminate|].
+  unfold pc_evict. destruct (cap <=? Z.of_nat (length (rcvd_of c idx))); [|discriminate].
+  destruct (rcvd_of c idx) as [|h t] eqn:HL; [discriminate|].
+  assert (Q : has_entry c idx h = true) by (apply (wf_stale _ W); rewrite HL; left; auto).
+  unfold has_entry in Q. destruct (sigs_of c h); [discriminate | discriminate].
+Qed.
 
 (* ---- packets: who can cause an Append on behalf of V ---- *)
 Definition genuine_sigs (k : scheme_kind) (V : Z) (G : list cid) : list psig :=
